@@ -115,6 +115,12 @@ HU_SERDE_JOB = job("hllunion_serde", owners=["C04"], serde=True, cfg="TraceHllUn
 HU_B_JOB = job("hllunion_b", owners=["C04"], serde=False, cfg="TraceHllUnion.cfg", drift_cfg="TraceHllUnionB.cfg", files={Q: 3, T: 12},
                **dict(_HU, args=lambda tier, seed, k, profile: _hu_args(tier, seed + 500, k + 5, profile)))
 
+# thorough tier: some files of the union driver in an AddressSanitizer build.  The union casts its gadget to Hll8Array and writes
+# 2^lg_k bytes into it; a gadget of another register width is a heap overflow before it is a wrong register.
+HU_ASAN_JOB = job("hllunion_asan", owners=["C04"], serde=False, cfg="TraceHllUnion.cfg", files={Q: 0, T: 6},
+                  tag="_asan", flags=("-fsanitize=address", "-fno-omit-frame-pointer", "-g"),
+                  **dict(_HU, args=lambda tier, seed, k, profile: _hu_args(Q, seed + 700, k + 9, profile)))
+
 HU_MC = [
     dict(module="MC_HllUnionDesign", cfg="MC_HllUnionDesign.cfg"),
     dict(module="MC_HllUnion", cfg="MC_HllUnion.cfg"),
@@ -156,3 +162,5 @@ def run_c04(oc, repo, seed, tier):
     oc.extra["negative_model_runs"] = neg
     core.trace_job(oc, HU_JOB, repo, seed, tier)
     core.trace_job(oc, HU_B_JOB, repo, seed, tier)
+    if tier == T:
+        core.trace_job(oc, HU_ASAN_JOB, repo, seed, tier)
